@@ -72,12 +72,12 @@ func (engC02) ID() string    { return "C02" }
 func (engC02) Level() string { return "exploration" }
 func (engC02) Runs(tier string) int {
 	if tier == "thorough" {
-		return 3000000
+		return 30000000
 	}
 	return 60000
 }
 func (engC02) Rule() string {
-	return "run i < " + fmt.Sprint(enumCount(len(enumAlphabet()), 4)) + " is the i-th build script of length <=4 over a 13-letter reduced alphabet (complete enumeration); later runs are seeded swarm scripts of 0-14 building steps (AddHeaders, AddRowItems, NewRow*/Row.Add/AddRow, AppendNewRow + late Row.Add, AddSeparator, Row.Add on a separator, scrambling AllRows()) with 0-5 (sometimes 9-13) cells. After every step the table is compared with the reference model. A run is non-trivial if it attached at least one row; distinct = distinct model shapes (sequence of row widths/separators, header width, detached count)."
+	return "run i < " + fmt.Sprint(enumCount(len(enumAlphabet()), 4)) + " (thorough tier: " + fmt.Sprint(enumCount(len(enumAlphabet()), 5)) + ") is the i-th build script of length <=4 (thorough: <=5) over a 13-letter reduced alphabet (complete enumeration); later runs are seeded swarm scripts of 0-14 (thorough: up to 40) building steps (AddHeaders, AddRowItems, NewRow*/Row.Add/AddRow, AppendNewRow + late Row.Add, AddSeparator, Row.Add on a separator, scrambling AllRows()) with 0-5 (sometimes 9-13) cells. After every step the table is compared with the reference model. A run is non-trivial if it attached at least one row; distinct = distinct model shapes (sequence of row widths/separators, header width, detached count)."
 }
 func (engC02) Assumptions() []string {
 	return []string{
@@ -89,16 +89,23 @@ func (engC02) Assumptions() []string {
 
 func (engC02) Gen(r *Rng, s *Script, idx int, tier string) {
 	alpha := enumAlphabet()
-	nEnum := enumCount(len(alpha), 4)
+	depth := 4
+	if tier == "thorough" {
+		depth = 5
+	}
+	nEnum := enumCount(len(alpha), depth)
 	s.Config["kind"] = 0
 	if idx < nEnum {
 		s.Config["enum"] = 1
-		s.Steps = enumDecode(alpha, 4, idx)
+		s.Steps = enumDecode(alpha, depth, idx)
 		return
 	}
 	s.Config["kind"] = r.Intn(7)
 	m := drawBuildMix(r)
 	n := r.Range(0, 14)
+	if tier == "thorough" && r.Chance(1, 3) {
+		n = r.Range(10, 40)
+	}
 	s.Config["steps"] = n
 	ctr := 0
 	for i := 0; i < n; i++ {
@@ -136,12 +143,12 @@ func (engC09) ID() string    { return "C09" }
 func (engC09) Level() string { return "exploration" }
 func (engC09) Runs(tier string) int {
 	if tier == "thorough" {
-		return 400000
+		return 1500000
 	}
 	return 12000
 }
 func (engC09) Rule() string {
-	return "run i < " + fmt.Sprint(enumCount(len(enumAlphabet()), 3)) + " is the i-th build script of length <=3 over the 13-letter reduced alphabet (complete enumeration); later runs are seeded swarm build scripts of 0-12 steps over text-like items (strings incl. empty/multi-line/wide/markup, ints, bools, nil, floats, and SimItems whose declared Height/TerminalCellWidth disagree with their text, incl. zero and negative, and JSON-marshalling items incl. failing ones). Each script ends with one explicit render step per renderer route (package function, fresh wrapper, auto) x every built-in decoration + a Populate()d custom one; every render runs under recover(). Non-trivial = at least one row or header; distinct = distinct model shapes."
+	return "run i < " + fmt.Sprint(enumCount(len(enumAlphabet()), 3)) + " (thorough tier: " + fmt.Sprint(enumCount(len(enumAlphabet()), 4)) + ", length <=4) is the i-th build script of length <=3 over the 13-letter reduced alphabet (complete enumeration); later runs are seeded swarm build scripts of 0-12 steps over text-like items (strings incl. empty/multi-line/wide/markup, ints, bools, nil, floats, and SimItems whose declared Height/TerminalCellWidth disagree with their text, incl. zero and negative, and JSON-marshalling items incl. failing ones). Each script ends with one explicit render step per renderer route (package function, fresh wrapper, auto) x every built-in decoration + a Populate()d custom one; every render runs under recover(). Non-trivial = at least one row or header; distinct = distinct model shapes."
 }
 func (engC09) Assumptions() []string {
 	return []string{
@@ -160,20 +167,27 @@ func renderStepsAll() []Step {
 }
 
 func specOf(st *Step) RenderSpec {
-	return RenderSpec{Format: pick(NFormats, st.A), Deco: pick(NDecoChoices, st.B), Via: pick(NVia, st.C), Flags: st.D & 3, ToWriter: st.E&1 != 0}
+	return RenderSpec{Format: pick(NFormats, st.A), Deco: pick(NDecoChoices, st.B), Via: pick(NVia, st.C), Flags: st.D & htmlFlagMask, ToWriter: st.E&1 != 0}
 }
 
 func (engC09) Gen(r *Rng, s *Script, idx int, tier string) {
 	alpha := enumAlphabet()
-	nEnum := enumCount(len(alpha), 3)
+	depth := 3
+	if tier == "thorough" {
+		depth = 4
+	}
+	nEnum := enumCount(len(alpha), depth)
 	s.Config["kind"] = 0
 	if idx < nEnum {
 		s.Config["enum"] = 1
-		s.Steps = enumDecode(alpha, 3, idx)
+		s.Steps = enumDecode(alpha, depth, idx)
 	} else {
 		s.Config["kind"] = r.Intn(7)
 		m := drawBuildMix(r)
 		n := r.Range(0, 12)
+		if tier == "thorough" && r.Chance(1, 3) {
+			n = r.Range(8, 30)
+		}
 		level := 1 + r.Intn(2)
 		s.Config["steps"] = n
 		s.Config["itemlevel"] = level
